@@ -16,6 +16,7 @@ from ..world import World, run_world
 
 ID = 'C06'
 LEVEL = 'exploration'
+QUICK_SCALE = 3      # the quick tier was enlarged by this factor after MIN_OBS['quick'] was measured
 RULE = ("One real client with 1-3 transfers per scripted peer (downloads from scripted uploaders, uploads to scripted "
         "downloaders); the client's connects to a peer are fast / slow (5 s) / hanging / refused and the indirect "
         "path succeeds late / never; extra management cycles are forced by unrelated transfers and server status "
